@@ -22,6 +22,7 @@ func c08Pair[V univers.Version[V], VR univers.VersionRange[V]](e univers.Ecosyst
 	vv.Assume(ea == nil)
 	vb, eb := e.NewVersion(b)
 	vv.Assume(eb == nil)
+	vv.Reached()
 	ca, cb := canonSemver(a), canonSemver(b)
 	// restricted to what the reference considers valid SemVer (no leading zeros in numeric
 	// identifiers, three components)
